@@ -322,6 +322,12 @@ def delay_families(kind="discrete"):
                     model([pop, tgt], dict(two, t1=dict(ops=["tg"]), t2=dict(ops=["tg"], over={"tg/tau": 2.0})),
                           [edge("p1/op/r", "t1/tg/u", 1.0, 0.3, 0.5), edge("p2/op/r", "t2/tg/u", 1.5, 0.2, 0.3),
                            edge("p2/op/r", "p1/op/r_in", 0.3, 0.4, 0.2)])))
+        # one kernel group whose sources repeat and leave a gap of the same size (units 0, 0, 2): the grouped source must be read
+        # element by element, not as the slice that spans first..last
+        nodes8 = {f"n{i}": dict(ops=["op"], over={"op/tau": 0.5 + 0.25 * i}) for i in range(4)}
+        es8 = [edge("n0/op/r", "n1/op/r_in", 0.5, 0.4, 0.2), edge("n0/op/r", "n2/op/r_in", -0.3, 0.4, 0.2), edge("n2/op/r", "n3/op/r_in", 0.7, 0.4, 0.2),
+               edge("n3/op/r", "n0/op/r_in", 0.2, 0.3, 0.1), edge("n1/op/r", "n0/op/r_in", -0.4, 0.6, 0.2)]
+        out.append(("G8-group-with-repeated-source-and-gap", dict(population=4), model([pop], nodes8, es8)))
     return out
 
 
